@@ -101,11 +101,27 @@ func runSafety(c *Ctx, prefix string, fns []*ssa.Function, pred map[*ssa.Functio
 	for _, r := range rules {
 		on[r] = true
 	}
+	inScope := map[*ssa.Function]bool{}
 	for _, fn := range fns {
+		inScope[fn] = true
+	}
+	// A helper with exactly one call site (the typical product of an "extract function"
+	// clean-up) is explored inline at that site, with the caller's facts, and not on its
+	// own; every other function in scope is analysed on its own.
+	single := func(caller, callee *ssa.Function) bool {
+		return singleSiteHelper(c, callee) && inScope[callee]
+	}
+	for _, fn := range fns {
+		if singleSiteHelper(c, fn) {
+			if sites := c.P.CallersOf(fn); len(sites) == 1 && inScope[sites[0].Parent()] {
+				c.R.Functions[shortFn(fn)] = true
+				continue
+			}
+		}
 		sp := &safetyPass{c: c, prefix: prefix, pred: pred, on: on, fn: fn, ordinal: map[string]int{}, mayNil: map[string]bool{}}
 		c.R.Functions[shortFn(fn)] = true
 		ex := NewExplorer(c.P, c.Pure, fn)
-		ex.Inline = nil // every function in scope is analysed on its own
+		ex.Inline = single
 		sp.ex = ex
 		ex.Hooks.Instr = sp.instr
 		ex.Run()
@@ -899,6 +915,16 @@ func (sp *safetyPass) lenLowerBound(st *State, v ssa.Value, depth int) (int64, b
 			upd(lb, false)
 		}
 	}
+	// the value may be the result of an inlined helper: decide on its canonical form
+	if cs := ex.Canon(st, r).S; strings.HasSuffix(cs, ")") {
+		for k, n := range fixedLenResults {
+			if strings.HasPrefix(cs, k+"(") && balancedCall(cs[len(k):]) {
+				if ns, _ := ex.NilState(st, v); ns == 0 || k == "net.IPv4Mask" || k == "net.IPv4" {
+					upd(int64(n), true)
+				}
+			}
+		}
+	}
 	// branch facts on len(<canon>)
 	ls := "len(" + ex.Canon(st, r).S + ")"
 	for _, f := range st.live {
@@ -1070,16 +1096,24 @@ func (sp *safetyPass) bounds(st *State, in ssa.Instruction, base, index, lo, hi 
 			return false, fmt.Sprintf("constant %d not covered by proven len ≥ %d", c, lb)
 		}
 		vs := ex.Canon(st, v).S
+		// strings denoting len(base): len(make(T, n)) is n
+		lenIs := map[string]bool{lenStr: true}
+		if mk, ok := ex.Resolve(st, base).(*ssa.MakeSlice); ok {
+			lenIs[ex.Canon(st, mk.Len).S] = true
+		}
 		if isRangeIndex(ex.Resolve(st, v)) || isRangeIndex(v) {
 			// range-loop index: 0 <= i, and i < len on the body edge
 			for _, f := range st.live {
-				if f.Kind == "lt" && f.X == vs && f.Val {
+				if f.Kind == "lt" && f.X == vs && f.Val && lenIs[f.Y] {
 					return true, "range-loop index (i < " + f.Y + ")"
 				}
 			}
 		}
 		nonneg := false
 		upper := false
+		if countedIndexPhi(ex.Resolve(st, v)) != nil || countedIndexPhi(v) != nil {
+			nonneg = true // for i := c (≥ 0); …; i += k (k > 0)
+		}
 		for _, f := range st.live {
 			if f.Kind != "lt" {
 				continue
@@ -1087,7 +1121,7 @@ func (sp *safetyPass) bounds(st *State, in ssa.Instruction, base, index, lo, hi 
 			if f.X == vs && f.Y == "0" && !f.Val {
 				nonneg = true
 			}
-			if f.X == vs && f.Y == lenStr && f.Val {
+			if f.X == vs && lenIs[f.Y] && f.Val {
 				upper = true
 			}
 			if f.X == "-1" && f.Y == vs && f.Val {
@@ -1233,8 +1267,14 @@ func (sp *safetyPass) lockpair() {
 		var at ssa.Instruction = lp.At
 		probs[at] = append(probs[at], lp)
 	}
-	for _, b := range sp.fn.Blocks {
-		for _, in := range b.Instrs {
+	var instrs []ssa.Instruction
+	for _, g := range inlineFuncsBy(sp.fn, sp.ex.Inline) {
+		for _, b := range g.Blocks {
+			instrs = append(instrs, b.Instrs...)
+		}
+	}
+	for _, in := range instrs {
+		{
 			var cc *ssa.CallCommon
 			switch x := in.(type) {
 			case *ssa.Call:
@@ -1274,4 +1314,37 @@ func (sp *safetyPass) lockpair() {
 			}
 		}
 	}
+}
+
+// balancedCall: s is exactly one parenthesised argument list "( ... )".
+func balancedCall(s string) bool {
+	if len(s) < 2 || s[0] != '(' {
+		return false
+	}
+	d := 0
+	for i, ch := range s {
+		switch ch {
+		case '(':
+			d++
+		case ')':
+			d--
+			if d == 0 {
+				return i == len(s)-1
+			}
+		}
+	}
+	return false
+}
+
+// singleSiteHelper: a same-package helper (not an entry point or named anchor)
+// with exactly one first-party call site, which is a plain static call.
+func singleSiteHelper(c *Ctx, fn *ssa.Function) bool {
+	sites := c.P.CallersOf(fn)
+	if len(sites) != 1 || !inlinedEverywhere(c, fn) {
+		return false
+	}
+	if fn.Signature.Recv() == nil && fn.Parent() != nil {
+		return false // closures
+	}
+	return len(fn.Blocks) <= 80
 }
